@@ -60,8 +60,21 @@ func runChild(c jobs.VerifC11Case, raw []byte, dir string) jobs.VerifC11Obs {
 	switch {
 	case strings.Contains(e, "stack overflow"):
 		o.Detail = "fatal error: stack overflow"
+		// name the function that recursed (first frame of package jobs in the trace)
+		if k := strings.Index(e, "internal/jobs.("); k >= 0 {
+			fn := e[k+len("internal/jobs."):]
+			if j := strings.IndexAny(fn, "\n "); j > 0 {
+				fn = fn[:j]
+			}
+			if j := strings.Index(fn, "(0x"); j > 0 {
+				fn = fn[:j]
+			}
+			o.Detail += " in " + fn
+		}
 	case strings.Contains(e, "nil pointer dereference"):
 		o.Detail = "panic: nil pointer dereference"
+	case strings.Contains(e, "makeslice"):
+		o.Detail = "panic: makeslice: len out of range"
 	case strings.Contains(e, "verif: injected panic"):
 		o.Detail = "panic: injected panic in the transform stage"
 	default:
